@@ -11,7 +11,9 @@ VS = "value_stream::"
 EXPLANATION = (
     "Decided structurally. (one-terminal) produce() sends exactly one terminal message on every path: End on the Ok edge of the "
     "pipeline result, Fail(reason) on its Err edge; the pipeline closure returns Ok only as flush_remaining's result, after the "
-    "body writer (and, compressed, the encoder's finish) succeeded. (pull-decision-table) Session::pull depends on its inputs "
+    "body writer (and, compressed, the encoder's finish) succeeded; (producer-errors-surface) in every producer kind's "
+    "body-writer closure (value, typed array, complex array, reader, writer) and in the pipeline closure the Err edge of any "
+    "fallible call can never reach an Ok exit, so a source or sink failure ends the stream with Fail, never End. (pull-decision-table) Session::pull depends on its inputs "
     "only through Option/Msg discriminants and its extracted table equals {(no lookahead, End) -> (empty, last); (no lookahead, "
     "Fail) -> Err; (c, Chunk n) -> (c, not last) with lookahead := n; (c, End) -> (c, last); (c, Fail) -> Err}; a closed channel "
     "is mapped to Fail. (done-gate) the next handler pulls only under !done, sets done on the last/Err rows, removes the "
@@ -64,6 +66,39 @@ def run(facts, R):
             # on the Zstd arm the finish result must be Continue
             zs = [term_pt(cb, x) for x, y in cb.calls() if y["callee"]["name"] == "finish"]
             R.check(len(zs) == 1, "one-terminal", cb.path, "compressed pipeline finishes the encoder", "finish() calls: %d" % len(zs), cb.span)
+
+    # ---------------- producer-errors-surface -----------------------------------------------------------------
+    # every producer kind's body-writer closure: an Err from the source or the sink can never lead to Ok(()) -
+    # otherwise produce() would send End over a truncated stream instead of Fail
+    from rules.C05 import result_switches, mentions
+    writers = [b for b in facts.bodies.values() if b.kind == "closure" and b.path.startswith("<server::Router as value_stream::RouterValueStreamExt>::")
+               and b.local_ty(0).startswith("std::result::Result<(), std::io::Error>") and any("dyn std::io::Write" in b.local_ty(a) for a in range(1, b.argc + 1))]
+    R.floor("producer-errors-surface", len(writers), 4, "producer body-writer closures")
+    for wb in writers + ([facts.body(pipe)] if pipe else []):
+        wsym = Sym(wb)
+        okpts = [(i, j) for i, j, st in blocks_assigning_variant(wb, "std::result::Result", "Ok")]
+        for i, t in wb.calls():
+            dty = wb.local_ty(t["dest"]["l"]) if not t["dest"]["p"] else ""
+            if not dty.startswith("std::result::Result<") or t["callee"]["name"] in ("map", "map_err", "branch", "from_residual", "and_then", "ok", "unwrap_or"):
+                continue
+            # the value may be returned as the closure's own result (tail expression): then nothing is swallowed
+            tail = t["dest"]["l"] == 0 or any(st["place"]["l"] == 0 and not st["place"]["p"] and mentions(wsym.rvalue(st["rv"]), i) for _, _, st in wb.assigns()) or \
+                any(tt["dest"]["l"] == 0 and any(mentions(wsym.op(a), i) for a in tt["args"]) for _, tt in wb.calls())
+            sw = result_switches(wb, wsym, facts, i)
+            nm = t["callee"]["path"].rsplit("::", 1)[-1]
+            if not sw:
+                R.check(tail, "producer-errors-surface", wb.path, "result of %s propagated" % nm,
+                        "the Result of `%s` is neither tested nor returned: a failing source/sink would be reported as a clean end of stream" % t["callee"]["path"], t.get("span"),
+                        "returned as the closure's result")
+                continue
+            for (s_, succ_t, fail_t) in sw:
+                # an Err may be retried (e.g. ErrorKind::Interrupted): the only way from the Err edge to an Ok exit is
+                # through another invocation of the same call
+                w = must_cross(wb, [(x, 0) for x in fail_t], okpts, [term_pt(wb, i)], after_start=False)
+                bad = w is not None
+                R.check(not bad, "producer-errors-surface", wb.path, "Err of %s never becomes Ok(())" % nm,
+                        "after `%s` fails the producer closure can still return Ok(()): the stream would end with an end marker over truncated bytes" % t["callee"]["path"], t.get("span"),
+                        "Err edge cannot reach an Ok exit")
 
     # ---------------- pull-decision-table ------------------------------------------------------------------
     sb = facts.body(VS + "Session::pull")
